@@ -773,6 +773,8 @@ namespace ip {
 	{
 		int remote = m_channel->remote_idx(m_bound_to);
 		p.hops = m_channel->hops[remote];
+		// the hop that dropped the packet consumed its notification
+		p.drop_fun = make_drop_fun();
 
 		// the packet is no longer in flight; it is accounted for again when
 		// it is re-sent
